@@ -96,7 +96,8 @@ struct BufCase
   std::vector<std::pair<int, int>> producers;  // (number of items 0..200, style bits: bit0 move, bits1.. pause pattern)
   std::vector<int> consumer;                   // per iteration: action selector
   int yields = 0;                              // for the Yielding payload
-  auto tie() { return std::tie(producers, consumer, yields); }
+  int reps = 0;                                // the consumer runs its step list 1 + reps times (hammering when large)
+  auto tie() { return std::tie(producers, consumer, yields, reps); }
 };
 template <class T>
 static void buffer_case(const BufCase &c, pbt::Ctx &ctx)
@@ -131,6 +132,7 @@ static void buffer_case(const BufCase &c, pbt::Ctx &ctx)
     });
   std::thread cons([&] {
     gate.arrive();
+    for (int rep = 0; rep <= c.reps % 40; ++rep)
     for (int sel : c.consumer) {
       switch (((sel % 4) + 4) % 4) {
       case 0:
@@ -148,7 +150,8 @@ static void buffer_case(const BufCase &c, pbt::Ctx &ctx)
           sizeObs.push_back(buf.size());
         break;
       }
-      spin(sel / 4 % 3);
+      if (c.reps % 40 < 8)
+        spin(sel / 4 % 3);  // hammering runs do not pause
     }
   });
   for (auto &x : th)
@@ -262,9 +265,11 @@ static void register_properties()
 {
   using namespace rc;
   auto prods = gen::mapcat(pbt::range<int>(1, 8), [](int n) {
-    return gen::container<std::vector<std::pair<int, int>>>((size_t)n, gen::pair(pbt::range<int>(0, 200), pbt::range<int>(0, 7)));
+    auto count = gen::weightedOneOf<int>({{4, pbt::range<int>(0, 200)}, {1, pbt::range<int>(1000, 4000)}});
+    return gen::container<std::vector<std::pair<int, int>>>((size_t)n, gen::pair(count, pbt::range<int>(0, 7)));
   });
-  auto bufc = gen::build<BufCase>(gen::set(&BufCase::producers, prods), gen::set(&BufCase::consumer, pbt::vec(pbt::range<int>(0, 11), 300)), gen::set(&BufCase::yields, pbt::range<int>(0, 2)));
+  auto bufc = gen::build<BufCase>(gen::set(&BufCase::producers, prods), gen::set(&BufCase::consumer, pbt::vec(pbt::range<int>(0, 11), 300)), gen::set(&BufCase::yields, pbt::range<int>(0, 2)),
+      gen::set(&BufCase::reps, gen::weightedOneOf<int>({{3, pbt::range<int>(0, 7)}, {1, pbt::range<int>(8, 39)}})));
   pbt::property<BufCase>("buffer_int", 150, bufc, buffer_case<long long>);
   pbt::property<BufCase>("buffer_string", 150, bufc, buffer_case<std::string>);
   pbt::property<BufCase>("buffer_yielding", 150, bufc, buffer_case<Yielding>);
